@@ -18,6 +18,7 @@ import (
 	"time"
 	"unsafe"
 
+	reqh2 "github.com/imroc/req/v3/http2"
 	"github.com/imroc/req/v3/internal/transport"
 	"github.com/imroc/req/v3/internal/verifh"
 	xhttp2 "golang.org/x/net/http2"
@@ -82,7 +83,13 @@ func c02EvArg(e c02Ev) string {
 // responses on the same connection: ordinary ones, ones the client must refuse, reset ones),
 // then the scripted response under test; afterwards it drains the connection until the client
 // closes it.
-func c02Peer(conn net.Conn, exchanges [][]c02Ev, done chan<- error) {
+//
+// Round 7: adopt >= 0 makes the peer behave like nginx / h2o / envoy (and unlike Go's own
+// server): when the client's SETTINGS carry HEADER_TABLE_SIZE = v, the HPACK encoder's dynamic
+// table is resized to min(v, adopt) and the change is signalled with the mandatory dynamic
+// table size update at the start of the next header block (RFC 7541 4.2 / 6.3). A peer may use
+// any size up to the announced one and MUST come down to it when it is below the current size.
+func c02Peer(conn net.Conn, exchanges [][]c02Ev, adopt int64, done chan<- error) {
 	defer conn.Close()
 	preface := make([]byte, len(xhttp2.ClientPreface))
 	if _, err := io.ReadFull(conn, preface); err != nil {
@@ -105,6 +112,13 @@ func c02Peer(conn net.Conn, exchanges [][]c02Ev, done chan<- error) {
 			switch f := f.(type) {
 			case *xhttp2.SettingsFrame:
 				if !f.IsAck() {
+					if v, ok := f.Value(xhttp2.SettingHeaderTableSize); ok && adopt >= 0 {
+						if int64(v) > adopt {
+							v = uint32(adopt)
+						}
+						enc.SetMaxDynamicTableSizeLimit(v)
+						enc.SetMaxDynamicTableSize(v)
+					}
 					fr.WriteSettingsAck()
 				}
 			case *xhttp2.HeadersFrame:
@@ -162,7 +176,7 @@ func c02PeerWrite(fr *xhttp2.Framer, enc *hpack.Encoder, hbuf *bytes.Buffer, str
 // c02GenPrelude: earlier exchanges on the same connection. What they leave behind in the
 // connection (hpack decoder switches, flow-control credit, stream table) must not leak into the
 // response under test. limit = the header list size the client advertises (0 = default).
-func c02GenPrelude(s *verifh.Session) (prelude [][]c02Ev, kinds []string, limit uint32) {
+func c02GenPrelude(s *verifh.Session, shared *c02KV) (prelude [][]c02Ev, kinds []string, limit uint32) {
 	r := s.Rand()
 	if r.Intn(3) != 0 {
 		return nil, nil, 0
@@ -171,8 +185,14 @@ func c02GenPrelude(s *verifh.Session) (prelude [][]c02Ev, kinds []string, limit 
 	for i := 0; i < n; i++ {
 		switch r.Intn(6) {
 		case 0: // ordinary
+			fs := []c02KV{{":status", "200"}, {"x-pre", strconv.Itoa(i)}, {"content-length", "3"}}
+			if shared != nil {
+				// a field the response under test repeats: with a peer that uses its HPACK
+				// table the repetition travels as a reference into the table
+				fs = append(fs, *shared)
+			}
 			prelude = append(prelude, []c02Ev{
-				{kind: 'H', fields: []c02KV{{":status", "200"}, {"x-pre", strconv.Itoa(i)}, {"content-length", "3"}}},
+				{kind: 'H', fields: fs},
 				{kind: 'D', data: "pre", es: true}})
 			kinds = append(kinds, "ok")
 		case 1, 2: // header list above the advertised limit by less than 2x: refused, connection stays
@@ -273,7 +293,7 @@ func c02Keep(k string) bool { return strings.HasPrefix(k, "X-") || k == "Content
 
 func TestVerif_C02_h2recv(t *testing.T) {
 	s := verifh.New(t, "C02", "h2recv",
-		"frame-script peer (x/net/http2 Framer + hpack) on loopback TCP against a real ClientConn: 0..2 (rarely 6) interim HEADERS, final HEADERS (status, fields, repeated names, Content-Length right / too small / too large / duplicated, Trailer announcement, optional CONTINUATION split, END_STREAM on HEADERS), DATA frames in generated sizes, with/without padding, empty, END_STREAM on DATA or on a trailer HEADERS; violations: DATA after END_STREAM, HEADERS after END_STREAM, trailers without END_STREAM, pseudo field in trailers, third HEADERS, DATA on HEAD, 1xx with END_STREAM, missing/non-numeric :status, RST_STREAM mid-body, GET/HEAD; in a third of the cases 1..3 EARLIER exchanges on the same connection (ordinary, header list above the advertised SETTINGS_MAX_HEADER_LIST_SIZE by < 2x, invalid field name / value, reset mid-body) whose outcome must not leak into the response under test; body 0..65537; caller read sizes {1,7,512,4096,65536,random}; compared: status, X-/Content-Type fields, concatenated bytes, final error class, trailers; non-trivial = >=2 DATA frames and non-empty body")
+		"frame-script peer (x/net/http2 Framer + hpack) on loopback TCP against a real ClientConn: 0..2 (rarely 6) interim HEADERS, final HEADERS (status, fields, repeated names, Content-Length right / too small / too large / duplicated, Trailer announcement, optional CONTINUATION split, END_STREAM on HEADERS), DATA frames in generated sizes, with/without padding, empty, END_STREAM on DATA or on a trailer HEADERS; violations: DATA after END_STREAM, HEADERS after END_STREAM, trailers without END_STREAM, pseudo field in trailers, third HEADERS, DATA on HEAD, 1xx with END_STREAM, missing/non-numeric :status, RST_STREAM mid-body, GET/HEAD; in a third of the cases 1..3 EARLIER exchanges on the same connection (ordinary, header list above the advertised SETTINGS_MAX_HEADER_LIST_SIZE by < 2x, invalid field name / value, reset mid-body) whose outcome must not leak into the response under test; in half of the cases the client announces its own SETTINGS with HEADER_TABLE_SIZE in {0,100,4095,4096,4097,16384,65536,1Mi,random} and the peer's HPACK encoder adopts that size / stays at 4096 / picks one in between (dynamic table size update), with a field of 1..9000 bytes shared between an earlier response and the one under test; body 0..65537; caller read sizes {1,7,512,4096,65536,random}; compared: status, X-/Content-Type fields, concatenated bytes, final error class, trailers; non-trivial = >=2 DATA frames and non-empty body")
 	r := s.Rand()
 	matrix := map[string]int{}
 	ln, err := net.Listen("tcp", "127.0.0.1:0")
@@ -284,8 +304,47 @@ func TestVerif_C02_h2recv(t *testing.T) {
 	n := verifh.N(700, 8000)
 	lens := []int{0, 1, 2, 5, 100, 4095, 4096, 4097, 16383, 16384, 16385}
 	stalls := 0
+	bigTable := 0
 	for c := 0; c < n; c++ {
-		prelude, preKinds, hdrLimit := c02GenPrelude(s)
+		// round 7 (seed C02-r7-2), class "the SETTINGS this end announces x what the origin
+		// makes of them": HEADER_TABLE_SIZE absent / 0 / below / at / above the 4096 default, up
+		// to 1 MiB; the peer's encoder adopts the announced size (nginx-like), stays at 4096
+		// (Go-like), or picks something in between, and says so with a table size update. The
+		// response the caller gets must not depend on any of it (the model line does not
+		// carry it).
+		hts := int64(-1) // -1: no custom SETTINGS (the transport's defaults)
+		if r.Intn(2) == 0 {
+			hts = int64(verifh.Pick(r, []int{0, 100, 4095, 4096, 4097, 16384, 65536, 65536, 1 << 20}))
+			if r.Intn(4) == 0 {
+				hts = int64(r.Intn(200000))
+			}
+		}
+		adopt := int64(-1) // -1: the peer ignores the announcement (legal only when it is >= 4096)
+		if hts >= 0 {
+			switch k := r.Intn(4); {
+			case hts < 4096 || k <= 1:
+				adopt = hts
+			case k == 2:
+				adopt = 4096 + r.Int63n(hts-4096+1)
+			}
+		}
+		var shared *c02KV
+		if r.Intn(2) == 0 {
+			shared = &c02KV{"x-shared", verifh.RandBytes(r, 1+r.Intn(9000), "abcdef0123456789")}
+		}
+		prelude, preKinds, hdrLimit := c02GenPrelude(s, shared)
+		if hdrLimit != 0 && shared != nil {
+			// the refused earlier exchanges need the small header-list limit: the shared
+			// field (up to 9000 bytes) would turn the ordinary ones into connection errors
+			shared = nil
+			for _, ex := range prelude {
+				for i := range ex {
+					if n := len(ex[i].fields); n > 0 && ex[i].fields[n-1].k == "x-shared" {
+						ex[i].fields = ex[i].fields[:n-1]
+					}
+				}
+			}
+		}
 		isHead := r.Intn(10) == 0
 		bl := verifh.Pick(r, lens)
 		if r.Intn(3) == 0 {
@@ -322,6 +381,10 @@ func TestVerif_C02_h2recv(t *testing.T) {
 		names := []string{"x-a", "x-b", "x-a", "x-request-id", "content-type", "etag", "x-0", "server"}
 		for i := r.Intn(6); i > 0; i-- {
 			fs = append(fs, c02KV{verifh.Pick(r, names), strings.Trim(verifh.RandBytes(r, r.Intn(16), "abcXYZ019 -_=;,/"), " ")})
+		}
+		if shared != nil {
+			at := 1 + r.Intn(len(fs))
+			fs = append(fs[:at:at], append([]c02KV{*shared}, fs[at:]...)...)
 		}
 		if r.Intn(15) == 0 && hdrLimit == 0 {
 			fs = append(fs, c02KV{"x-long", verifh.RandBytes(r, 3000+r.Intn(30000), "abcdef0123456789")})
@@ -488,6 +551,7 @@ func TestVerif_C02_h2recv(t *testing.T) {
 		default:
 			nextRead = func() int { return 1 + r.Intn(9000) }
 		}
+		htsPos := r.Intn(4)
 		var evArgs []string
 		for _, e := range evs {
 			evArgs = append(evArgs, c02EvArg(e))
@@ -517,7 +581,7 @@ func TestVerif_C02_h2recv(t *testing.T) {
 						done <- err
 						return
 					}
-					c02Peer(conn, append(append([][]c02Ev(nil), prelude...), evs), done)
+					c02Peer(conn, append(append([][]c02Ev(nil), prelude...), evs), adopt, done)
 				}()
 				conn, err := net.Dial("tcp", ln.Addr().String())
 				if err != nil {
@@ -527,6 +591,19 @@ func TestVerif_C02_h2recv(t *testing.T) {
 				tr := &Transport{Options: &transport.Options{}}
 				tr.AllowHTTP = true
 				tr.MaxHeaderListSize = hdrLimit
+				if hts >= 0 {
+					// what SetHTTP2SettingsFrame / Impersonate* do: the caller's own SETTINGS
+					// (the defaults plus HEADER_TABLE_SIZE, in a generated position)
+					tr.Settings = []reqh2.Setting{
+						{ID: reqh2.SettingEnablePush, Val: 0},
+						{ID: reqh2.SettingInitialWindowSize, Val: 4 << 20},
+					}
+					if hdrLimit != 0 {
+						tr.Settings = append(tr.Settings, reqh2.Setting{ID: reqh2.SettingMaxHeaderListSize, Val: hdrLimit})
+					}
+					at := htsPos % (len(tr.Settings) + 1)
+					tr.Settings = append(tr.Settings[:at:at], append([]reqh2.Setting{{ID: reqh2.SettingHeaderTableSize, Val: uint32(hts)}}, tr.Settings[at:]...)...)
+				}
 				cc, err := tr.NewClientConn(conn)
 				if err != nil {
 					impl = "infra:" + err.Error()
@@ -639,7 +716,7 @@ func TestVerif_C02_h2recv(t *testing.T) {
 			evArg = strings.Join(evArgs, "/")
 		}
 		line := "c02h2recv " + c02B(isHead) + " " + evArg + " " + verifh.IntList(reads)
-		human := fmt.Sprintf("h2 head=%v status=%s interim=%d fields=%d declared=%v cl=%d body=%d data-frames=%d trailers=%d headEnds=%v mut=%s reads=%d earlier-on-conn=%v", isHead, status, nint, len(fs), declared, clv, len(body), ndata, len(trailers), headEnds, mut, len(reads), preKinds)
+		human := fmt.Sprintf("h2 head=%v status=%s interim=%d fields=%d declared=%v cl=%d body=%d data-frames=%d trailers=%d headEnds=%v mut=%s reads=%d earlier-on-conn=%v announced-header-table-size=%d peer-encoder-table=%d shared-field=%v", isHead, status, nint, len(fs), declared, clv, len(body), ndata, len(trailers), headEnds, mut, len(reads), preKinds, hts, adopt, shared != nil)
 		if panicked {
 			s.Crash(line, human, ptxt, "")
 			continue
@@ -660,6 +737,25 @@ func TestVerif_C02_h2recv(t *testing.T) {
 		s.Count("mut:" + mut)
 		for _, k := range preKinds {
 			s.Count("earlier:" + k)
+		}
+		switch {
+		case hts < 0:
+			s.Count("settings:default")
+		case hts < 4096:
+			s.Count("settings:header-table<4096")
+		case hts == 4096:
+			s.Count("settings:header-table=4096")
+		default:
+			s.Count("settings:header-table>4096")
+		}
+		if adopt > 4096 {
+			s.Count("peer-encoder-table>4096")
+			bigTable++
+			if shared != nil && len(shared.v) > 4096-40 && len(preKinds) > 0 {
+				s.Count("peer-encoder-table>4096+reference-to-entry>4096")
+			}
+		} else if adopt >= 0 && adopt < 4096 {
+			s.Count("peer-encoder-table<4096")
 		}
 		if strings.HasPrefix(impl, "error:") {
 			s.Count("head-" + impl)
@@ -709,6 +805,9 @@ func TestVerif_C02_h2recv(t *testing.T) {
 		s.Case(line, impl, propOK, class, ndata >= 2 && len(body) > 0, human)
 	}
 	s.Finish()
+	if stalls < 4 && bigTable == 0 {
+		t.Errorf("lane h2recv never had a peer whose HPACK encoder table exceeds 4096")
+	}
 	if stalls < 4 {
 		for _, l := range []string{"undeclared", "declared", "surplus", "short"} {
 			for _, tr := range []string{"false", "true"} {
